@@ -41,6 +41,7 @@ type FuncContract struct {
 	Mutates  []string
 	Borrows  []string
 	Inplace  []string
+	ShallowProps []string // properties for which only this function (not its callees) is in the cone
 	Props    []string // properties whose ownership/frame/effects obligations this function carries
 	Preserves bool // `preserves-existing`: no field of an object that existed before the call is changed (only fresh objects are written)
 	Borrowed bool // results alias data the caller does not own (heap look-ups)
@@ -48,6 +49,8 @@ type FuncContract struct {
 	Fresh    bool
 	Trusted  bool // contract is assumed, body not verified (stated in evidence)
 	Lemmas   []string
+	Propagates     []string // `propagates G#n`: call sites whose failure must be reported by this function
+	PropagatesTags []string
 	File     string
 	Line     int
 	// `regexp <var>` blocks: a contract on a package-level compiled expression
@@ -259,7 +262,15 @@ func parseContractFile(path, pkgDir string) ([]*FuncContract, error) {
 		case "borrows":
 			cur.Borrows = append(cur.Borrows, splitNames(rest)...)
 		case "property":
-			cur.Props = append(cur.Props, splitNames(rest)...)
+			// `property C20 shallow`: the function's own obligations count for the property, its callees are not pulled in
+			if f := strings.Fields(rest); len(f) >= 2 && f[len(f)-1] == "shallow" {
+				for _, n := range splitNames(strings.Join(f[:len(f)-1], " ")) {
+					cur.Props = append(cur.Props, n)
+					cur.ShallowProps = append(cur.ShallowProps, n)
+				}
+			} else {
+				cur.Props = append(cur.Props, splitNames(rest)...)
+			}
 		case "inplace":
 			cur.Inplace = append(cur.Inplace, splitNames(rest)...)
 		case "borrowed":
@@ -277,6 +288,14 @@ func parseContractFile(path, pkgDir string) ([]*FuncContract, error) {
 			cur.Trusted = true
 		case "uses":
 			cur.Lemmas = append(cur.Lemmas, splitNames(rest)...)
+		case "propagates":
+			tags := []string{}
+			for _, m := range reTag.FindAllStringSubmatch(rest, -1) {
+				tags = append(tags, m[1])
+			}
+			rest = reTag.ReplaceAllString(rest, "")
+			cur.Propagates = append(cur.Propagates, splitNames(rest)...)
+			cur.PropagatesTags = append(cur.PropagatesTags, tags...)
 		case "lines":
 			cur.LinesPred = rest
 		case "accepts":
